@@ -47,6 +47,33 @@ def gen_case(rng, ltype, sharp=True):
                 stream="sharp" if sharp else "scatter")
 
 
+def gen_scatter_case(rng, k):
+    """exactly one scatter that applies to the lens is non-zero (as in C04): the reported model Ddt must
+    then carry the population mean and spread"""
+    lt = rng.choice(["DdtGaussian", "DdtGaussKin"])
+    case = gen_case(rng, lt, False)
+    cfg, h = case["cfg"], case["hyper"]
+    for key in ("global_los_distribution", "los_distributions"):
+        cfg.pop(key, None)
+    h["kwargs_los"] = None
+    kl = h["kwargs_lens"]
+    kl.setdefault("lambda_ifu", 1.02)
+    cfg["lambda_mst_distribution"] = "GAUSSIAN"
+    which = ["ifu", "mst", "los"][k % 3]
+    if which == "ifu":
+        cfg["mst_ifu"] = True
+        kl.update(lambda_mst_sigma=0.0, lambda_ifu_sigma=rng.uniform(0.02, 0.08))
+    elif which == "mst":
+        cfg["mst_ifu"] = False
+        kl.update(lambda_mst_sigma=rng.uniform(0.02, 0.08), lambda_ifu_sigma=0.0)
+    else:
+        kl.update(lambda_mst_sigma=0.0, lambda_ifu_sigma=0.0)
+        cfg.update(global_los_distribution=0, los_distributions=["GAUSSIAN"])
+        h["kwargs_los"] = [dict(mean=rng.uniform(-0.02, 0.06), sigma=rng.uniform(0.01, 0.04))]
+    case["stream"] = "scatter"
+    return case
+
+
 def mvn_logpdf(x, mean, cov):
     from scipy.stats import multivariate_normal
     return float(multivariate_normal.logpdf(np.asarray(x, dtype=float), mean=np.asarray(mean, dtype=float), cov=np.asarray(cov, dtype=float)))
@@ -214,7 +241,8 @@ def run(ctx, res):
     rng = ctx.rng
     per = ctx.n(12, 200)
     cases = [gen_case(rng, lt, True) for lt in TYPES for _ in range(per)]
-    cases += [gen_case(rng, rng.choice(["DdtGaussian", "DdtGaussKin"]), False) for _ in range(ctx.n(6, 40))]
+    cases += [gen_case(rng, rng.choice(["DdtGaussian", "DdtGaussKin"]), False) for _ in range(ctx.n(4, 30))]
+    cases += [gen_scatter_case(rng, k) for k in range(ctx.n(9, 60))]
     lines, meta = [], []
     for case in cases:
         try:
